@@ -20,7 +20,7 @@ MUTANTS = [
     M("c05-cat-drop-equal-scale", "C05", "break", [(OPS, "            and torch.equal(t1._scale, t2._scale)\n            and t1.qtype == t2.qtype\n        ):\n            if t1.qtype.is_floating_point", "            and t1.qtype == t2.qtype\n        ):\n            if t1.qtype.is_floating_point")], "C05.R4"),
     M("c05-cat-drop-float-guard", "C05", "break", [(OPS, "            if t1.qtype.is_floating_point or t2.qtype.is_floating_point:\n                # Cat is not supported for float8\n                return qfallback(op, inputs, dim)\n", "")], "C05.R6"),
     M("c05-lt-drop-float-guard", "C05", "break", [(OPS, "        and not input.qtype.is_floating_point\n        and not other.qtype.is_floating_point\n", "")], "C05.R6"),
-    M("c05-lt-drop-equal", "C05", "break", [(OPS, "        and torch.equal(input._scale, other._scale)\n    ):\n        return op(input._data, other._data)", "    ):\n        return op(input._data, other._data)")], "C05.R4"),
+    M("c05-lt-drop-equal", "C05", "break", [(OPS, "        and torch.equal(input._scale, other._scale)\n", "")], "C05.R4"),
     M("c05-view-drop-axis-guard", "C05", "break", [(OPS, "    if input.axis is None:\n        # The view is transparent for QTensor with scalar scales\n        out_data = op(input._data, *shape)\n        return QBytesTensor(input.qtype, None, out_data.size(), out_data.stride(), out_data, input._scale)\n    return qfallback(op, input, *shape)", "    out_data = op(input._data, *shape)\n    return QBytesTensor(input.qtype, input.axis, out_data.size(), out_data.stride(), out_data, input._scale)")], "C05.R5"),
     M("c05-unary-drop-axis-guard", "C05", "break", [(OPS, "    if input.axis is not None:\n        return op(input.dequantize(), *args, **kwargs)\n    # When quantization is per-tensor", "    # When quantization is per-tensor")], "C05.R5"),
     M("c05-neg-drop-float-guard", "C05", "break", [(OPS, "    if input.qtype.is_floating_point:\n        # Neg is not supported for float8\n        return op(input.dequantize(), *args, **kwargs)\n", "")], "C05.R6"),
@@ -46,7 +46,7 @@ MUTANTS = [
     M("c05-bmm-raw-qbits", "C05", "break", [(OPS, "    if input.qtype != qint8 or other.qtype != qint8 or cannot_mm(other):", "    if input.qtype != qint8 or cannot_mm(other):")], None),
     M("c05-split-fallback-reorder", "C05", "break", [(OPS, "        return qfallback(op, input, *args, **kwargs)\n    out_datas", "        return qfallback(op, *args, input, **kwargs)\n    out_datas")], "C05.R3"),
     M("c05-transpose-keeps-axis-noguard", "C05", "break", [(OPS, "    if input.axis is not None:\n        return op(input.dequantize(), *args)\n    out_data = op(input._data, *args)", "    out_data = op(input._data, *args)")], "C05.R5"),
-    M("c05-refactor-lt-nested-if", "C05", "refactor", [(OPS, "    if (\n        isinstance(input, QBytesTensor)\n        and isinstance(other, QBytesTensor)\n        and not input.qtype.is_floating_point\n        and not other.qtype.is_floating_point\n        and torch.equal(input._scale, other._scale)\n    ):\n        return op(input._data, other._data)", "    if isinstance(input, QBytesTensor) and isinstance(other, QBytesTensor):\n        if not input.qtype.is_floating_point and not other.qtype.is_floating_point:\n            if torch.equal(input._scale, other._scale):\n                return op(input._data, other._data)")]),
+    M("c05-refactor-lt-nested-if", "C05", "refactor", [(OPS, "    if (\n        isinstance(input, QBytesTensor)\n        and isinstance(other, QBytesTensor)\n        and not input.qtype.is_floating_point\n        and not other.qtype.is_floating_point\n        and torch.equal(input._scale, other._scale)\n        # The order of the values is the order of the integer data for positive scales only (a null scale maps all data to zero)\n        and bool((input._scale > 0).all())\n    ):\n        return op(input._data, other._data)", "    if isinstance(input, QBytesTensor) and isinstance(other, QBytesTensor):\n        if not input.qtype.is_floating_point and not other.qtype.is_floating_point:\n            if torch.equal(input._scale, other._scale) and bool((input._scale > 0).all()):\n                return op(input._data, other._data)")]),
     M("c05-refactor-view-early-return", "C05", "refactor", [(OPS, "    if input.axis is None:\n        # The view is transparent for QTensor with scalar scales\n        out_data = op(input._data, *shape)\n        return QBytesTensor(input.qtype, None, out_data.size(), out_data.stride(), out_data, input._scale)\n    return qfallback(op, input, *shape)", "    if input.axis is not None:\n        return qfallback(op, input, *shape)\n    data = op(input._data, *shape)\n    return QBytesTensor(input.qtype, input.axis, data.size(), data.stride(), data, input._scale)")]),
     M("c05-refactor-neg-locals", "C05", "refactor", [(OPS, "    out_data = op(data, *args, **kwargs)\n    return QBytesTensor(input.qtype, input.axis, input.size(), input.stride(), out_data, input._scale)\n\n\n@register_qbytestensor_op(\n    [\n        torch.ops.aten.expand,", "    negated = op(data, *args, **kwargs)\n    scale = input._scale\n    return QBytesTensor(qtype=input.qtype, axis=input.axis, size=input.size(), stride=input.stride(), data=negated, scale=scale)\n\n\n@register_qbytestensor_op(\n    [\n        torch.ops.aten.expand,")]),
     M("c05-refactor-register-squeeze", "C05", "refactor", [(OPS, "        torch.ops.aten.unsqueeze,\n", "        torch.ops.aten.unsqueeze,\n        torch.ops.aten.squeeze,\n")]),
